@@ -10,11 +10,13 @@ LEVEL = {
             "extract∘try_from_ymd = id and try_from_ymd∘extract = id on the whole range (400-year periodicity + one period by kernel evaluation); extract(j+1) = calendar successor of extract(j); "
             "weekday = (d+4) mod 7 with day 0 a Thursday; order of day numbers = lexicographic order of triples; month lengths and leap rule. "
             "Tie: exhaustive — all 3,652,059 day numbers through extract/day_of_week/try_from_days and the (year −1..10001) × month × day grid through try_from_ymd/is_valid; crate vs independent Lean Spec (`--spec`)."),
-    "C02": ("One theorem per value-returning operation (≈60 rows): Valid args → op = ok v → Valid v — constructors, linear and month arithmetic, f64 scaling and add_days, conversions, all 12 truncation/rounding units on Date/Timestamp/OracleDate, last-day-of-month, "
+    "C02": ("One theorem per value-returning operation – COMPLETE over the protocol catalogue (tools/catalog.py, 118 operations: 90 rows, 28 operations return no value of the six types; tools/rows_map.json names for each operation the model function the driver calls and its row; tools/rows_check.py fails the check when an operation has no row, the row does not mention that model function, or its axioms are not the three allowed ones): Valid args → op = ok v → Valid v — constructors, linear and month arithmetic, f64 scaling and add_days, conversions, all 12 truncation/rounding units on Date/Timestamp/OracleDate, last-day-of-month (Props/C02, Props/C02Rows), "
             "and `parse` for ANY picture, text and clock (Props/C02Parse: parse_valid, deStr_valid). "
             "Tie: every value-returning op × boundary/random pools, both overflow modes, with a range oracle on every crate result."),
     "C03": ("Theorems: try_new never panics and fails only with InvalidFormat (all byte strings); `parse` never panics for ANY type, picture bytes, text bytes and clock; `format` never panics for EVERY valid value of every type and ANY picture bytes (Props/C03Format); "
+            "`format` into ANY bounded sink returns exactly the full text when it fits and a format error otherwise – never a panic, never a truncated text reported as success (Props/C03Sink, every capacity); "
             "checked constructors, linear arithmetic, f64 scaling, add_days, binary and human-readable (de)serialisation never produce Panic. Trunc/round/month arithmetic no-panic follows from the closed forms of C09–C11 for valid receivers. "
+            "One no-panic row per protocol operation whose model function can fail (Props/C03Rows; 60 rows, the other 58 operations are total functions in the model), completeness checked on every run by tools/rows_check.py. "
             "For the 139 translated functions of date.rs/time.rs/timestamp.rs/interval.rs/oracle.rs/common.rs additionally `Tr.f_safe`: no arithmetic node of the (mechanically translated) Rust body overflows its integer type and no table index is out of bounds, for all valid inputs (Lemmas/TranslatedSafe). "
             "Tie: every op × pools, generated + byte-random pictures and inputs, all pictures up to length 3/4, blank runs to 1000, long pictures, long non-ASCII payloads, the Display route, band values around cast thresholds, on harness builds with overflow checks on AND off; any `panic` from the crate is a violation."),
     "C04": ("Theorems (complete on the model): every table the formatter indexes (regenerated from the Rust source each run) equals its arithmetic meaning; write_u32 = zero-padded decimal for every u32 and width; "
